@@ -136,8 +136,9 @@ class C16(Campaign):
         if driver == "ForceBias":
             roles = ["logfile", "trajectory"]  # no restart file here: that failure belongs to C07
         chosen = [r for r in roles if rnd.random() < 0.8] or [rnd.choice(roles)]
+        how = rnd.choice(["object", "object", "path", "path", "mixed"])
         for r in chosen:
-            files[r] = {"name": r + ".out", "as": rnd.choice(["object", "object", "path"]), "mode": mode}
+            files[r] = {"name": r + ".out", "as": how if how != "mixed" else rnd.choice(["object", "path"]), "mode": mode}
         sc["files"] = files
         sc["bufsize"] = rnd.choice([16, 200, 8192, 8192, 1 << 20])
         if driver == "ForceBias":
@@ -259,6 +260,8 @@ class C16(Campaign):
                 points.append((k, "oserror", rnd.choice(FRACS)))
         if only is None and "logfile" in sc["files"]:
             self._interrupted_call(sc)
+        if only is None:
+            self._resume_and_crash(sc, disk, calls)
         for k, kind, frac in points:
             if k >= nops:
                 continue
@@ -355,6 +358,108 @@ class C16(Campaign):
                     f"{'a line without newline; ' if not text.endswith(chr(10)) else ''}malformed rows {bad[:2]!r} (header has {ncol} columns)",
                     f"interrupted call #{fail_at}")
         res.cover.add(f"interrupted|{sc['driver']}|{sc['files'].get('logging_mode')}")
+
+    def _resume_and_crash(self, sc, disk, calls):
+        """A later process resumes from the restart file, re-using the same paths in append mode, and dies at every
+        file operation of its own: what the first process completed must survive, and the restart file must keep
+        loading to a state that was saved."""
+        files = sc["files"]
+        if (sc["driver"] in ("ForceBias", "AdaptiveForceBias", "MonteCarlo") or "restart_file" not in files
+                or files.get("logging_mode") != "a" or any(files[r].get("as") != "path" for r in ("logfile", "trajectory", "restart_file") if r in files)):
+            return
+        import io as _io
+        import warnings
+
+        from ase.io.jsonio import read_json
+
+        from simkit import calcs
+        from simkit.world import driver_class
+
+        res = self.res
+        warnings.simplefilter("ignore")
+        d2 = disk.clone()
+        d2.dead = False
+        base = {n: f.durable for n, f in d2.files.items()}
+        text = base.get(files["restart_file"]["name"], "")
+        if not text:
+            return
+        for f in d2.files.values():
+            f._closed = True
+        trace = []
+        d2.trace = trace
+        d2.plan = {}
+        kw = {r: "/simfs/" + files[r]["name"] for r in ("logfile", "trajectory", "restart_file") if r in files}
+        saved_states = [json.loads(text)]
+        try:
+            with PathPatch(d2):
+                data = read_json(_io.StringIO(text))
+                mc2 = driver_class(sc["driver"]).from_dict(data, logging_mode="a", logging_interval=files.get("logging_interval", 1), **kw)
+            mc2.atoms.calc = calcs.make_calc(sc["calc"])
+            ref = [None]
+
+            class W:  # minimal stand-in for the Recorder
+                pass
+            wobj = W()
+            wobj.mc, wobj.atoms = mc2, mc2.atoms
+            ref[0] = wobj
+            rec = Recorder(d2, ref)
+            obs = mc2.file_manager.observers
+            for name in list(obs):
+                obs[name] = ObsProbe(obs[name], name, rec)
+            for _ in mc2.irun(3):
+                for __ in _:
+                    pass
+            mc2.close()
+        except Exception as e:  # noqa: BLE001
+            from simkit.core import classify_exception
+            info = classify_exception(e)
+            if info["harness"]:
+                res.harness_error = info["text"]
+            return  # failures to resume belong to C07
+        res.count("fault.resume_then_crash")
+        role_of_file = {files[r]["name"]: {"logfile": "log", "trajectory": "traj", "restart_file": "restart"}[r]
+                        for r in ("logfile", "trajectory", "restart_file") if r in files}
+        for k, fname, op, arg, _tag, clone in trace:
+            for kind, frac in (("clean", 0.0), ("torn_in", 0.37)):
+                c2 = clone.clone()
+                c2.plan = {"at": k, "kind": kind, "frac": frac}
+                c2.trace = None
+                try:
+                    if op == "open_truncate":
+                        c2._op(c2.files[fname], "open_truncate", None)
+                        c2.files[fname].durable = ""
+                    elif op == "write":
+                        c2.files[fname].write(arg)
+                    else:
+                        getattr(c2.files[fname], op)(*([] if arg is None else [arg]))
+                except SimCrash:
+                    pass
+                snap = c2.snapshot()
+                res.count("evaluations")
+                done_b = [c for c in rec.calls if c["op_end"] <= k]
+                inprog = next((c for c in rec.calls if c["op_begin"] <= k < c["op_end"]), None)
+                for fn, role in role_of_file.items():
+                    cur = snap.get(fn, "")
+                    last_b = next((c for c in reversed(done_b) if c["file"] == fn), None)
+                    if role in ("log", "traj"):
+                        must = last_b["durable"] if last_b else base.get(fn, "")
+                        if not cur.startswith(must):
+                            self._v("completed_output_lost_after_crash", f"file={role}|kind={kind}|window=resumed:{op}|inside=resume",
+                                    f"a resumed process died at its file operation {k} ({op}); {len(must)} chars that were complete are no longer a prefix of the {len(cur)} on disk",
+                                    f"resume op {k}")
+                    else:
+                        allowed = [saved_states[0]] + [c["state_json"] for c in rec.calls if c["file"] == fn and c["op_begin"] <= k]
+                        try:
+                            ok = json.loads(cur) in allowed
+                            why = "loads, but to a state that was never saved"
+                        except Exception as e:  # noqa: BLE001
+                            ok, why = False, f"{type(e).__name__}; {len(cur)} chars on disk"
+                        window = "open" if op == "open_truncate" or not rec.calls or k < rec.calls[0]["op_begin"] else "rewrite"
+                        if not ok and not (inprog is not None and inprog["file"] == fn):
+                            self._v("restart_unloadable_after_crash", f"file=restart|kind={kind}|window=resumed:{window}|inside=resume",
+                                    f"a process resumed from the restart file with the same path (append mode) and died at its file "
+                                    f"operation {k} ({op}) before completing a restart write: {why}", f"resume op {k}")
+        res.cover.add(f"resume|{sc['driver']}|{len(trace)}ops")
 
     # -- invariants --------------------------------------------------------------------
     def _v(self, invariant, context, detail, at, data=None):
